@@ -340,6 +340,20 @@ def check_baseline(res, update):
     return None
 
 
+def prop_assumptions(prop):
+    out = ['Verus 0.2026.09.13 + z3, Kani 0.68 + CBMC 6.11 and the rustc front ends are trusted',
+           'the extractor/rewrite table (lib/weave.py, lib/rewrite.py): the verified text is the text cut from /repo on this run after the listed mechanical rewrites (coverage.rewrites, coverage.substitutions_R11; generated files under evidence/extracted/)',
+           'every external_body / assume_specification / axiom line listed in coverage.trusted_base is an assumed contract of code outside the verified functions',
+           'machine integers are machine integers (overflow checked); floats are uninterpreted in Verus (shape only) and bit-precise in Kani']
+    try:
+        import gen_manifest
+        if prop in gen_manifest.META:
+            out.append('scope of the claim: ' + gen_manifest.META[prop][1])
+    except Exception:
+        pass
+    return out
+
+
 def main():
     ap = argparse.ArgumentParser()
     ap.add_argument('prop')
@@ -393,6 +407,7 @@ def main():
     violations, known_hits, undecided = [], [], []
     obligations = discharged = 0
     samples, functions_under_contract, trusted, backends, rewrites, assumptions = [], [], [], {}, {}, []
+    substitutions = []
     bounded = []
     for r in results:
         if r.get('backend') == 'kani':
@@ -422,6 +437,7 @@ def main():
                 for sb in it['subs']:
                     rewrites.setdefault('R11', 0)
                     rewrites['R11'] += sb['hits']
+                    substitutions.append('%s:%s /%s/ => %s  [%d hit(s)]' % (r['unit'], it['name'], sb['pat'][:70], sb['rep'][:50], sb['hits']))
             for fn, v in r['functions'].items():
                 backends['%s/%s' % (r['unit'], fn.split('::', 1)[-1])] = {'backend': 'verus/z3', 'ms': v['ms'], 'rlimit': v['rlimit']}
             trusted += ['%s: %s' % (r['unit'], t) for t in r['trusted']]
@@ -515,6 +531,8 @@ def main():
             'backends': backends,
             'bounded': bounded,
             'rewrites': {k: {'hits': v, 'meaning': rewrite.RULE_DOC.get(k, '')} for k, v in sorted(rewrites.items())},
+            'substitutions_R11': substitutions,
+            'known_findings': [k for k in known.get('findings', []) if k['property'] == prop],
             'samples': samples[:12] or ['(none)'],
             'units': [{'unit': r['unit'], 'status': r['status'], 'wall_s': r.get('wall'), 'verified_functions': r.get('verified'),
                        'vacuity': r.get('vacuity'), 'generated': r.get('generated'), 'notes': r.get('notes'), 'second_seed': r.get('second_seed')} for r in results],
@@ -525,7 +543,7 @@ def main():
                            'plus one implicit safety bundle (overflow/index/callee preconditions/termination) per verified function; '
                            'Kani harness checks are counted per harness check id',
         },
-        'assumptions': sorted(set(assumptions + [l.strip() for l in open(os.path.join(VERIF, 'contracts', 'ASSUMPTIONS.' + prop + '.txt'))] if os.path.exists(os.path.join(VERIF, 'contracts', 'ASSUMPTIONS.' + prop + '.txt')) else assumptions)),
+        'assumptions': prop_assumptions(prop) + sorted(set(assumptions)),
         'wall_s': wall,
         'violations': len(vio_by_unit),
     }
